@@ -158,7 +158,10 @@ def run(tier: str, seed: int) -> int:
         fam = r.choice([["qp_quartic"], ["qp_softplus"], ["rosen"]])
         cases.append({"seed": s, "kind": "seq", "families": fam, "box": "none", "small_budgets": False,
                       "n": r.randint(2, 8) if fam == ["rosen"] else None,
-                      "features": {"jac": "callable", "callback": "none", "ftarget": "none", "gtol_callable": False, "scaler": "none", "update": "none"},
+                      # (a tenth of the objectives run a nested optimisation of their own at every call: the reference implementation
+                      # cannot be disturbed by it, the port must not be either)
+                      "features": {"jac": "callable", "callback": "none", "ftarget": "none", "gtol_callable": False, "scaler": "none", "update": "none",
+                                   "nested_inner": i % 10 == 7, "mutating_user": False},
                       "override": {"ftol": 0.0, "gtol": 1e-10, "maxiter": 12, "maxfun": 100000, "maxcor": r.randint(1, 8), "maxls": 20}})
     for i in range(nopt):
         s = seed * 1_000_003 + 700_000 + i
